@@ -76,6 +76,11 @@ def speeds(pts, n=200):
 
 
 def check_case(pts, t, k, th, v):
+    return check_case_fresh(pts, t, k, th, v) or oc.stale_check(pts, hash((tuple(pts), t)) & 0xFFFFFF, [
+        ("length", lambda g: g.length), ("lengthAtTime(%r)" % t, lambda g: g.lengthAtTime(t))])
+
+
+def check_case_fresh(pts, t, k, th, v):
     seg = oc.mkseg(pts)
     L = seg.length
     lo, hi = enclosure(pts)
@@ -179,8 +184,7 @@ def search(ctx, budget):
             segs = []
             cur = (float(rng.randint(-200, 200)), float(rng.randint(-200, 200)))
             for _ in range(rng.randint(1, 6)):
-                pts = oc.rand_seg_pts(rng, rng.choice([2, 3, 4]), "int")
-                pts[0] = cur
+                pts = oc.chain_seg(rng, cur)
                 cur = pts[-1]
                 segs.append(pts)
             hist = []
